@@ -18,10 +18,13 @@
                     processor's execution mode; every ROM word is exactly Max_word bits, decodes
                     (opcode index < #opcodes), and every field it mentions is in range: register
                     < 2^R, input < N, output < M, immediate < 2^Rsize, ROM address < 2^O, RAM
-                    address < 2^L, jump location < 2^locBits; #Slocs + #Vars ≤ 2^O (ha mode);
-                    data words are Max_word bits.
+                    address < 2^L, jump location < 2^locBits; the bits after the last field are
+                    zero; #Slocs + #Vars ≤ 2^O (ha mode); data words are Max_word bits.
     machine         every Processors entry names a domain; the topology's processor port counts
-                    are the domains' (N, M); `Topology.wfB`.
+                    are the domains' (N, M); `Topology.wfB`; shared objects: one link list per
+                    processor, links name existing objects, `Shared_constraints` = the objects
+                    the links name (in order), every shared-object opcode finds an object of its
+                    kind.
   Separately, `CfClosed`: every *jump target* of a `ha`-mode processor is ≤ program length (the
   simulator rejects a program counter beyond that).  A source with a literal target inside the
   ROM but beyond the program is accepted by the tools; such a machine is `WfBM` but not `CfClosed`.
@@ -36,6 +39,8 @@ structure CP where
   prog : List Bits
   data : List Bits := []
   shared : Bool := false     -- the processor has shared objects attached (outside the layout table)
+  sharedC : List String := []  -- Arch.Shared_constraints, split at ","  (e.g. "queue:8")
+  mwDecl : Nat := 0          -- Max_word() as the Go code computes it (0 = not given); used only when an opcode is outside the layout table
 deriving DecidableEq, Repr, Inhabited
 
 structure BM where
@@ -43,6 +48,8 @@ structure BM where
   cps : List CP
   procs : List Nat
   topo : Topology.Topo
+  sos : List String := []          -- Shared_objects (String() of each instance, e.g. "queue:8")
+  solinks : List (List Nat) := []  -- Shared_links: per processor, the shared objects attached to it
 deriving DecidableEq, Repr, Inhabited
 
 namespace WfBM
@@ -76,7 +83,8 @@ def operandsOk (a : Arch) : List FieldKind → List Operand → Bool
   | f :: fs, x :: xs => operandOk a f x && operandsOk a fs xs
   | _, _ => false
 
-/-- one ROM word: exact width, decodable, every field in range -/
+/-- one ROM word: exact width, decodable, every field in range, and nothing but zeros after the
+    last field (a wider-than-field operand that spills into the padding keeps the word length) -/
 def wordOk (a : Arch) (w : Bits) : Bool :=
   w.length == a.maxWord &&
   match Encode.disasm a w with
@@ -84,7 +92,8 @@ def wordOk (a : Arch) (w : Bits) : Bool :=
   | some i =>
     match layout i.op with
     | none => false
-    | some fs => modeOk i.op a.mode && operandsOk a fs i.args
+    | some fs => modeOk i.op a.mode && operandsOk a fs i.args &&
+                 (w.drop (a.opBits + (fs.map a.width).sum)).all (fun b => !b)
 
 /-- control-flow closure of one word: a jump target of a `ha`-mode processor is an instruction of
     the program or the address just past it (where the simulator halts) -/
@@ -105,6 +114,25 @@ def wordCf (a : Arch) (plen : Nat) (w : Bits) : Bool :=
     match layout i.op with
     | none => true
     | some fs => targetsOk a plen i.op fs i.args
+
+/-- the kind of shared object an opcode talks to -/
+def soKind (op : String) : Option String :=
+  if op ∈ ["q2r", "r2q"] then some "queue"
+  else if op ∈ ["t2r", "r2t"] then some "stack"
+  else if op = "k2r" then some "kbd"
+  else if op = "lfsr82r" then some "lfsr8"
+  else if op ∈ ["u2r", "r2u"] then some "uart"
+  else if op ∈ ["r2v", "r2vri"] then some "vtextmem"
+  else if op ∈ ["wrd", "wwr", "chc", "chw"] then some "channel"
+  else if op = "hit" then some "barrier"
+  else none
+
+/-- every opcode that talks to a shared object finds one of its kind among the processor's -/
+def soOpsServed (cp : CP) : Bool :=
+  cp.arch.ops.all fun op =>
+    match soKind op with
+    | none => true
+    | some k => cp.sharedC.any fun c => c.startsWith (k ++ ":") || c == k
 
 def opsKnown (a : Arch) : Bool := a.ops.all fun op => (layout op).isSome && modeOk op a.mode
 
@@ -127,11 +155,24 @@ def procPorts (bm : BM) : List (Option (Nat × Nat)) :=
 def wfTopo (bm : BM) : Bool :=
   procPorts bm == bm.topo.procs.map some && Topology.wfB bm.topo
 
+/-- shared objects: one link list per processor, every link names an existing object, and a
+    processor's `Shared_constraints` is exactly the list of the objects its links name, in order
+    (the HDL generator and the simulator build the SO ports from the constraints and wire them
+    through the links) -/
+def wfShared (bm : BM) : Bool :=
+  bm.solinks.length == bm.procs.length &&
+  bm.solinks.all (fun ls => ls.all fun i => decide (i < bm.sos.length)) &&
+  (bm.procs.zip bm.solinks).all (fun (d, ls) =>
+    match bm.cps[d]? with
+    | some cp => cp.sharedC == ls.filterMap (fun i => bm.sos[i]?)
+    | none => false) &&
+  bm.cps.all soOpsServed
+
 end WfBM
 
 /-- the validator -/
 def WfBM (bm : BM) : Bool :=
-  bm.cps.all (WfBM.wfCP bm.rsize) && WfBM.wfTopo bm
+  bm.cps.all (WfBM.wfCP bm.rsize) && WfBM.wfTopo bm && WfBM.wfShared bm
 
 /-- control-flow closure (reported separately: it is not part of the property's statement, but it
     is what the simulator additionally needs — a program counter beyond the program is an error) -/
@@ -153,6 +194,9 @@ def explainCP (rsize : Nat) (cp : CP) : List String :=
 
 def explain (bm : BM) : List String :=
   (bm.cps.zipIdx.flatMap fun (cp, i) => (explainCP bm.rsize cp).map fun s => s!"cp{i}:{s}") ++
+  (if wfShared bm then [] else ["shared-objects-links-constraints"]) ++
+  (bm.cps.zipIdx.flatMap fun (cp, i) =>
+    if cp.mwDecl != 0 && !(opsKnown cp.arch) && !(cp.prog.all fun w => w.length == cp.mwDecl) then [s!"cp{i}:rom-word-width-vs-declared"] else []) ++
   (if procPorts bm == bm.topo.procs.map some then [] else ["topology-ports"]) ++
   (if Topology.wfB bm.topo then [] else ["topology-wf"])
 
